@@ -404,4 +404,25 @@ theorem firstfit_nobreak_exception_unicode (env : Env) (hsp : env.cw SP = 1) (mo
       rw [he] at hfit
       simp [displayWidth, dwFrom] at hfit
 
+/-- the same with the opportunity routine inside the model: the pipeline never panics
+    (`ownOpps_boundary`, any tables), so for every safe paragraph the statement holds outright and
+    "no break opportunity inside a word" (`C11.unicode_separator_ownlb`) needs no contract -/
+-- @audit TW.C02.firstfit_nobreak_exception_unicode_ownlb
+theorem firstfit_nobreak_exception_unicode_ownlb (env : Env) (T : LbTables) (henv : env.opps = ownOpps T)
+    (hsp : env.cw SP = 1) (mo : MinimaOracle Int) (o : Opts)
+    (halg : o.alg = .firstFit) (hsep : o.sep = .unicode) (hb : Builtin o.splitter) (hbw : o.breakWords = false)
+    (p : Text) (hsafe : SeqSafe o.splitter p) (n : Nat) :
+    ∃ frs, pipeline env o p (o.width - displayWidth env.cw o.subsequentIndent) = some frs ∧
+    ∃ groups : List (List Word),
+      wrapSingleLineSlow env mo o p n = some (specLines o groups 0 n) ∧
+      groups.flatten = frs ∧
+      ∀ k g, groups[k]? = some g →
+        displayWidth env.cw (groupSlice g) ≤ o.width - displayWidth env.cw (indentOf o (n + k)) ∨
+        (∃ f, g = [f] ∧ groupSlice g = f.word ∧ f.word ≠ [] ∧
+          o.splitter.points env.isAlnum f.word = [] ∧
+          ∃ ws, findWordsUnicode env p = some ws ∧ ∃ w ∈ ws, ∃ A B, w.word = A ++ f.word ++ B) := by
+  obtain ⟨frs, hpipe⟩ := TW.C05.pipeline_total env o hb p (o.width - displayWidth env.cw o.subsequentIndent)
+    (fun _ => boundary_own env T henv _)
+  exact ⟨frs, hpipe, firstfit_nobreak_exception_unicode env hsp mo o halg hsep hb hbw p hsafe n frs hpipe⟩
+
 end TW.C02
